@@ -70,7 +70,7 @@ def make_mj(jtypes, bodies, limited, gtypes, con, nu):
       geom_solmix=px.symarr('solmix', (ngeom,)), geom_priority=px.symarr('prio', (ngeom,)),
       jnt_type=np.array(jtypes), qpos0=px.symarr('qpos0', (nq,)), jnt_bodyid=np.array(bodies), jnt_pos=px.symarr('jpos', (njnt, 3)),
       jnt_range=jr, jnt_limited=np.array(limited), jnt_stiffness=px.symarr('stiff', (njnt,)),
-      geom_type=np.array(gtypes), geom_contype=np.array([c[0] for c in con]), geom_conaffinity=np.array([c[1] for c in con]),
+      geom_type=np.array(gtypes, dtype=np.int32), geom_contype=np.array([c[0] for c in con], dtype=np.int32), geom_conaffinity=np.array([c[1] for c in con], dtype=np.int32),
       geom_size=px.symarr('gsize', (ngeom, 3)))
 
 
@@ -113,7 +113,7 @@ def features(jtypes, bodies, limited, gtypes, con, nu):
     F['free-joint-stiffness'] = z3.Or(*terms)
   F['ball-joint'] = any(t == 1 for t in jtypes)
   F['free-in-stack'] = any(jtypes[j] == 0 and sum(1 for k in range(njnt) if bodies[k] == bodies[j]) > 1 for j in range(njnt))
-  terms = [V('gsize', (g, 1)) > z3.RealVal(str(Fraction(0.001))) for g in range(ngeom) if gtypes[g] == 5 and (con[g][0] | con[g][1] << 32) > 0]
+  terms = [V('gsize', (g, 1)) > z3.RealVal(str(Fraction(0.001))) for g in range(ngeom) if gtypes[g] == 5 and (con[g][0] != 0 or con[g][1] != 0)]
   if terms:
     F['colliding-long-cylinder'] = z3.Or(*terms)
   return F
@@ -223,7 +223,7 @@ def _concrete(jt, bodies, lim, gt, con, nu, model, clean=False):
                              actuator_trntype=arr('trntype', (nu,), 0), geom_solmix=arr('solmix', (ngeom,), 1), geom_priority=arr('prio', (ngeom,), 0),
                              jnt_type=np.array(jt), qpos0=arr('qpos0', (nq,), 0), jnt_bodyid=np.array(bodies), jnt_pos=arr('jpos', (njnt, 3), 0),
                              jnt_range=jr, jnt_limited=np.array(lim), jnt_stiffness=arr('stiff', (njnt,), 0), geom_type=np.array(gt),
-                             geom_contype=np.array([c[0] for c in con]), geom_conaffinity=np.array([c[1] for c in con]), geom_size=arr('gsize', (ngeom, 3), 0.0005))
+                             geom_contype=np.array([c[0] for c in con], dtype=np.int32), geom_conaffinity=np.array([c[1] for c in con], dtype=np.int32), geom_size=arr('gsize', (ngeom, 3), 0.0005))
   try:
     mjcf.validate_model(mj)
     return {'reproduced': not clean, 'accepted': True}
